@@ -209,7 +209,7 @@ func (n *Node) Next(r node.ListRequest) (node.Node, []val.Value, error) {
 		}
 	} else if key != nil {
 		if r.Delete {
-			if n.OnGetByKey != nil {
+			if n.OnDeleteByKey != nil {
 				err = n.OnDeleteByKey(n, r)
 			} else {
 				err = n.DoDeleteByKey(r)
@@ -600,9 +600,7 @@ func (ref *Node) newContainerHandler() (reflectContainer, error) {
 	src := reflect.ValueOf(ref.Object)
 	k := src.Kind()
 	if k == reflect.Map {
-		return &mapAsContainer{
-			src: src,
-		}, nil
+		return newMapAsContainer(ref, src), nil
 	}
 	if k == reflect.Struct || (k == reflect.Pointer && src.Elem().Kind() == reflect.Struct) {
 		return newStructAsContainer(ref, src), nil
@@ -633,7 +631,7 @@ func (ref *Node) DoGetByRow(r node.ListRequest) (node.Node, []val.Value, error) 
 		key = make([]val.Value, len(keyVals))
 		var err error
 		for i := 0; i < len(keyVals); i++ {
-			if key[i], err = node.NewValue(r.Meta.KeyMeta()[0].Type(), keyVals[i].Interface()); err != nil {
+			if key[i], err = node.NewValue(r.Meta.KeyMeta()[i].Type(), keyVals[i].Interface()); err != nil {
 				return nil, nil, err
 			}
 		}
